@@ -130,6 +130,25 @@ theorem C16_messages_spec (keys : List (Key I A)) (lbs : List (L × BundleResult
   rw [formatMessagesFromInner_spec keys lbs h errors]
   simp [batchSpec]
 
+/-- **messages_keep_all_attributes.**  `format_message_from_bundle` hands over one entry per attribute of the answering
+message, in source order and under its own name - also when a name is REPEATED (legal FTL) - each with that attribute's
+formatting; the resolver errors of all attributes are appended in the same order. -/
+theorem C16_messages_keep_all_attributes (args : A) (attrs : List (N × (A → Fmt T RE))) (es : List RE) :
+    (formatAttrs args attrs es).1 = attrs.map (fun (p : N × (A → Fmt T RE)) => (p.1, (p.2 args).text)) ∧
+    (formatAttrs args attrs es).2 = es ++ (attrs.map (fun (p : N × (A → Fmt T RE)) => (p.2 args).errs)).flatten := by
+  induction attrs generalizing es with
+  | nil => simp [formatAttrs]
+  | cons a rest ih =>
+    obtain ⟨name, pat⟩ := a
+    have h := ih (es ++ (pat args).errs)
+    simp only [formatAttrs, List.map_cons, List.flatten_cons]
+    exact ⟨by rw [h.1], by rw [h.2, List.append_assoc]⟩
+
+-- TEST: a message whose attribute name `t` is repeated keeps both, in order
+example : (formatAttrs (T := String) (RE := String) (N := String) (A := Nat) 0
+    [("t", fun _ => ⟨"one", []⟩), ("u", fun _ => ⟨"two", ["e"]⟩), ("t", fun _ => ⟨"three", []⟩)] []) =
+    ([("t", "one"), ("u", "two"), ("t", "three")], ["e"]) := by rfl
+
 /-- the per-key result of `format_messages` in words: the first locale having the message answers
 with `format_message_from_bundle`'s output; `None` iff no locale has the message -/
 theorem C16_messages_first (k : Key I A) (pre post : List (L × BundleResult I L A N T RE BE))
